@@ -118,7 +118,8 @@ PROPS = {
                  dict(name="validate", quick=1500, thorough=40000, shard=500, trivial_tags=[]),
                  dict(name="rolloutbg", quick=1200, thorough=60000, shard=400, trivial_tags=["no-change", "status-not-written"]),
                  dict(name="ctlplane", quick=800, thorough=30000, shard=400, trivial_tags=[]),
-                 dict(name="bgfinal", quick=300, thorough=10000, shard=300, trivial_tags=["partitioned"])],
+                 dict(name="bgfinal", quick=300, thorough=10000, shard=300, trivial_tags=["partitioned"]),
+                 dict(name="trctl", quick=600, thorough=20000, shard=400, trivial_tags=[])],
         rule="rolloutsm engine (see C02) with arbitrary nextStepIndex values; brexec, labelpatch, convert engines for the other crash surfaces; every reconcile/call runs under recover(). "
              "validate engine: generated v1beta1 Rollouts (workload kinds incl. unsupported, canary / blue-green / none / both, enableExtraWorkloadForCanary, 0-4 steps with number / "
              "percentage / malformed / absent replicas in pure and MIXED type plans incl. decreasing ones, traffic strings incl. 0%, 101%, non-percent, header matches, 0-2 traffic "
@@ -135,7 +136,9 @@ PROPS = {
     "C10": dict(
         engines=[dict(name="rolloutsm", quick=1200, thorough=60000, shard=400, trivial_tags=["no-change", "status-not-written"]),
                  dict(name="rollouttr", quick=1200, thorough=60000, shard=400, trivial_tags=["no-network-write"]),
-                 dict(name="rolloutbg", quick=600, thorough=30000, shard=400, trivial_tags=["no-change", "status-not-written"])],
+                 dict(name="rolloutbg", quick=600, thorough=30000, shard=400, trivial_tags=["no-change", "status-not-written"]),
+                 dict(name="taskorder", quick=70, thorough=70, shard=70, trivial_tags=[]),
+                 dict(name="bgfintr", quick=800, thorough=30000, shard=400, trivial_tags=[])],
         rule="seeded generator of (Rollout spec: 1-6 canary steps with int/percent replicas and optional pause durations, paused, disabled, deleting, finalizer, rollback-in-batch "
              "annotation; persisted status: every phase, every Progressing reason, sub-status with every step state incl. unknown, step index, nextStepIndex incl. jumps and out-of-range "
              "values (0, negative, len+1, 99), stale/current/empty rollout hash, every finalising step, elapsed/fresh timestamps; CloneSet: missing, inconsistent generation, rolled back, "
@@ -149,6 +152,7 @@ PROPS = {
     ),
     "C03": dict(
         engines=[dict(name="rollouttr", quick=1200, thorough=60000, shard=400, trivial_tags=["no-network-write"]),
+                 dict(name="rolloutbg", quick=600, thorough=30000, shard=400, trivial_tags=["no-change", "status-not-written"]),
                  dict(name="trafficmgr", quick=800, thorough=40000, shard=400, trivial_tags=["no-write"]),
                  dict(name="gateway", quick=200, thorough=10000, shard=25, search=400, trivial_tags=["no-stable-rule"])],
         rule="rollouttr: the rolloutsm generator (any spec/status/workload/BatchRelease combination, focused modes at the gates) with traffic routing through an nginx Ingress: "
@@ -167,7 +171,9 @@ PROPS = {
     "C04": dict(
         translator=True,
         engines=[dict(name="rollouttr", quick=1500, thorough=60000, shard=500, trivial_tags=["no-network-write"]),
-                 dict(name="trafficmgr", quick=800, thorough=40000, shard=400, trivial_tags=["no-write"])],
+                 dict(name="trafficmgr", quick=800, thorough=40000, shard=400, trivial_tags=["no-write"]),
+                 dict(name="taskorder", quick=70, thorough=70, shard=70, trivial_tags=[]),
+                 dict(name="bgfintr", quick=800, thorough=30000, shard=400, trivial_tags=[])],
         rule="the translator (go/ast) re-derives the finalising task orders from nextCanaryTask / nextBlueGreenTask and refuses any other shape of those functions; "
              "rollouttr and trafficmgr generators as for C03; for C04 the relevant cases are the finalising phases (Finalising / Cancelling / Terminating / Disabling) with every "
              "persisted cursor, every network state and every in-memory grace state: when the state satisfies the finalising invariant the state after the real reconcile must "
@@ -184,7 +190,8 @@ PROPS = {
         translator=True,
         engines=[dict(name="rollouttr", quick=1500, thorough=60000, shard=500, trivial_tags=["no-network-write"]),
                  dict(name="trafficmgr", quick=800, thorough=40000, shard=400, trivial_tags=["no-write"]),
-                 dict(name="ctlplane", quick=800, thorough=30000, shard=400, trivial_tags=[])],
+                 dict(name="ctlplane", quick=800, thorough=30000, shard=400, trivial_tags=[]),
+                 dict(name="handback", quick=600, thorough=30000, shard=400, trivial_tags=[])],
         rule="as C04; crash points are represented as (any persisted state, any network state reachable as a prefix of a reconcile's writes, any in-memory grace state): the "
              "generators draw the grace expectations independently of the persisted state (none / pending / elapsed per action) and the trafficmgr sequences contain explicit "
              "process restarts and clock advances between real manager calls; non-trivial = a network write happened; distinct = distinct input JSON",
@@ -199,7 +206,8 @@ PROPS = {
                  dict(name="rolloutsm", quick=1200, thorough=60000, shard=400, trivial_tags=["no-change", "status-not-written"]),
                  dict(name="custom", quick=400, thorough=20000, shard=200, trivial_tags=[]),
                  dict(name="gateway", quick=200, thorough=10000, shard=25, search=400, trivial_tags=["no-stable-rule"]),
-                 dict(name="ctlplane", quick=800, thorough=30000, shard=400, trivial_tags=[])],
+                 dict(name="ctlplane", quick=800, thorough=30000, shard=400, trivial_tags=[]),
+                 dict(name="handback", quick=600, thorough=30000, shard=400, trivial_tags=[])],
         rule="rollouttr / rolloutsm generators (see C03 / C02): every phase incl. Terminating and Disabling, every finalising task as persisted cursor, workload present / absent / "
              "with inconsistent status, BatchRelease present / resumed / completed / deleting / absent, network state arbitrary; one real Reconcile per case; non-trivial = the "
              "reconcile changed something; distinct = distinct input JSON",
@@ -516,3 +524,25 @@ MANIFEST_TEXT = {
              "ComputeHash is opaque; pod names distinct; the fake client stands for the API server.",
         design_ref="DESIGN.md section 9, C12"),
 }
+
+# ---- additions of round 6 (appended to the texts above) ----
+_ADD = {
+    "C03": " Blue-green: a step reaches its traffic-routing state only behind a BatchRelease reporting this step's batch Ready (theorem + clause on the real "
+           "blue-green reconcile, rolloutbg engine).",
+    "C04": " The taskorder engine walks the REAL nextCanaryTask / nextBlueGreenTask from every cursor of every reason and evaluates the order clauses on what they "
+           "return; the bgfintr engine runs the blue-green exit sequences with traffic routing (Model/BGFinTR.v) and checks that every reconcile keeps the invariant. "
+           "One defect found this way was repaired (F20).",
+    "C06": " A failed first read of the workload inside a reconcile must end in an error with nothing changed (read_failed model and clause).",
+    "C09": " The TrafficRouting reconcile (trctl engine, incl. an empty strategy) must not panic either.",
+    "C10": " Blue-green exits with traffic routing have their own model (Model/BGFinTR.v, tied by the bgfintr engine) and two theorems: the rollback touches the "
+           "BatchRelease only on a network without canary route, and the cursor leaves RouteTrafficToStable only once the route is gone.",
+    "C16": " Proved in addition: whenever Encode succeeds on ANY table the output has exactly as many elements / members as the table has live entries. Tested in "
+           "addition: a well-behaved script gives the same result before and after another script tampered with every global it can reach (fresh state per call).",
+    "C05": " The blue-green control planes (Deployment, CloneSet) and the HPA have their own model (Model/HandBack.v, tied by the handback engine through the real "
+           "control-plane wrappers): Initialize, any UpgradeBatch calls and Finalize, with any one Patch failing and phases retried, hand the workload back as "
+           "configured (theorem C05_bluegreen_workload_handed_back_as_configured).",
+    "C17": " A fifth, tested, clause covers the last sentence: at full partition with every pod available a sync of a not yet converged Deployment changes some "
+           "ReplicaSet size.",
+}
+for _k, _v in _ADD.items():
+    MANIFEST_TEXT[_k]["text"] += _v
